@@ -19,6 +19,15 @@ EVID = os.path.join(ROOT, "evidence")
 REPLAYS = os.path.join(EVID, "replays")
 LAYOUT = os.path.join(WORK, "layout.json")
 NPROC = min(16, os.cpu_count() or 4)
+# Development aid: VERIF_REPO=<copy of the repository> runs a check against that copy (own binaries,
+# own evidence directory under .work), so that seeded changes can be evaluated while other checks
+# run against /repo.  The registered commands never set it.
+ALT = REPO != "/repo"
+if ALT:
+    _h = hashlib.sha1(REPO.encode()).hexdigest()[:8]
+    BIN = os.path.join(WORK, "bin-alt-" + _h)
+    EVID = os.path.join(WORK, "evid-alt-" + _h)
+    REPLAYS = os.path.join(EVID, "replays")
 
 
 class Inconclusive(Exception):
@@ -56,16 +65,23 @@ class Scratch:
 def build_harness(race=False, tags="verif"):
     """(Re)build every driver from /repo's working tree."""
     os.makedirs(BIN, exist_ok=True)
-    shutil.copyfile(os.path.join(REPO, "go.sum"), os.path.join(HARNESS, "go.sum"))
     out = BIN + ("-race" if race else "")
     os.makedirs(out, exist_ok=True)
-    cmd = ["go", "build", "-tags", tags] + (["-race"] if race else []) + ["-o", out + "/", "./cmd/..."]
+    modfile = []
+    if ALT:
+        mf = os.path.join(BIN, "go.alt.mod")
+        open(mf, "w").write(open(os.path.join(HARNESS, "go.mod")).read().replace("=> /repo", "=> " + REPO))
+        shutil.copyfile(os.path.join(REPO, "go.sum"), os.path.join(BIN, "go.alt.sum"))
+        modfile = ["-modfile=" + mf]
+    else:
+        shutil.copyfile(os.path.join(REPO, "go.sum"), os.path.join(HARNESS, "go.sum"))
+    cmd = ["go", "build"] + modfile + ["-tags", tags] + (["-race"] if race else []) + ["-o", out + "/", "./cmd/..."]
     p = subprocess.run(cmd, cwd=HARNESS, env=goenv(), capture_output=True, text=True)
     if p.returncode != 0 and tags:
         # A hook may have stopped compiling after a refactoring of the repository:
         # fall back to the hook-free build (checks that need a hook say so themselves).
         first = p.stdout + p.stderr
-        cmd = ["go", "build"] + (["-race"] if race else []) + ["-o", out + "/", "./cmd/..."]
+        cmd = ["go", "build"] + modfile + (["-race"] if race else []) + ["-o", out + "/", "./cmd/..."]
         p = subprocess.run(cmd, cwd=HARNESS, env=goenv(), capture_output=True, text=True)
         if p.returncode == 0:
             log("NOTE: building with -tags %s failed, continuing without hooks:\n%s" % (tags, first[-600:]))
